@@ -45,11 +45,9 @@ fn unsupported(c: &C, out: &mut Vec<&'static str>) {
             unsupported(m, out)
         }
         | C::Comatch(_, arms) => {
-            out.push("comatch");
             arms.iter().for_each(|(_, m)| unsupported(m, out))
         }
         | C::Dtor(m, _, _) => {
-            out.push("dtor");
             unsupported(m, out)
         }
         | C::Arith(_, _, a, b) => {
@@ -140,8 +138,25 @@ pub fn run(opts: &Opts) -> i32 {
                 ctx.push((q, b));
             }
         }
+        // every other body builds one or two objects of codata types with several destructors and
+        // observes them (the translation of `comatch` arms and destructor calls)
+        let mut objects: Vec<(usize, V, usize, C, VTy)> = Vec::new();
+        if attempts % 2 == 0 {
+            for _ in 0..1 + g.rng.below(2) {
+                if let Some((x, v, t, y, call, res)) = g.gen_object(&ctx, 6) {
+                    unsupported_v(&v, &mut bad);
+                    unsupported(&call, &mut bad);
+                    ctx.push((x, t));
+                    ctx.push((y, res.clone()));
+                    objects.push((x, v, y, call, res));
+                }
+            }
+        }
         let mut body = g.gen_c(&CTy::Ret(Box::new(ty.clone())), &ctx, 6 + (attempts % 5) * 6);
         unsupported(&body, &mut bad);
+        for (x, v, y, call, res) in objects.into_iter().rev() {
+            body = C::Let(x, v, Box::new(C::Bind(y, Box::new(call), res, Box::new(body))));
+        }
         for (q, gid, arg, b) in calls.into_iter().rev() {
             body = C::Bind(q, Box::new(C::App(Box::new(C::Force(V::Var(gid))), arg, CTy::Ret(Box::new(b.clone())))), b, Box::new(body));
         }
@@ -165,6 +180,17 @@ pub fn run(opts: &Opts) -> i32 {
                 sig.push_str(&format!("    let D{d} = data{body} end that\n"));
             }
         }
+        // codata types likewise: objects with several destructors are built and observed inside the
+        // block
+        for (c, dtors) in g.sig.codatas.iter().enumerate() {
+            let body: String = dtors.iter().map(|(k, b)| format!(" | .{k} : {}", b.src())).collect();
+            let recursive = dtors.iter().any(|(_, t)| { let t = format!("{} ", t.src().replace([')', '('], " ")); t.contains(&format!("C{c} ")) });
+            if recursive {
+                sig.push_str(&format!("    def C{c} : CType = codata{body} end that\n"));
+            } else {
+                sig.push_str(&format!("    let C{c} = codata{body} end that\n"));
+            }
+        }
         let mut gtext = String::new();
         for (gid, _, _, f) in &globals {
             gtext.push_str(&format!("    def x{gid} = {{ {} }} that\n", f.src().replace('\n', "\n      ")));
@@ -173,6 +199,12 @@ pub fn run(opts: &Opts) -> i32 {
         crate::zcore::SUGAR.with(|f| f.set(made % 2 == 0));
         let text = body.src().replace('\n', "\n      ");
         crate::zcore::SUGAR.with(|f| f.set(false));
+        if text.contains("comatch") {
+            sink.count("bodies_with_comatch");
+        }
+        if text.contains(" .d") {
+            sink.count("bodies_with_destructor_call");
+        }
         let plain = frame(&sig, &gtext, &format!("    def ! plain : Ret ({}) =\n      {text}\n    that\n", ty.src()), "! plain", &ty);
         let monadic = frame(&sig, &gtext, &format!("    def ! translated = @[monadic] begin\n      {text}\n    end that\n"), "! translated Ret { ! ret_monad }", &ty);
         // the same computation as a ZCore program for the Lean reference semantics: the globals as
